@@ -241,3 +241,13 @@ Definition stored_coef (st : pydict) (name : string) : Q :=
   | Some (VDict d) => match assoc name d with Some (VNum q) => q | _ => 0%Q end
   | _ => 0%Q
   end.
+
+(* printing of the stored coefficient dictionary for the correspondence run *)
+Definition show_stored (st : pydict) : list (string * (Z * Z)) :=
+  match assoc "aberration_coefs" st with
+  | Some (VDict d) => flat_map (fun kv => match snd kv with
+                                          | VNum q => [(fst kv, show_q (Qred q))]
+                                          | _ => []
+                                          end) d
+  | _ => []
+  end.
